@@ -139,7 +139,9 @@ class PWalker(Walker):
             if body and (body[0] // 1000 == 33 and self.qa or
                          body[0] % 1000 == 255 and body[0] // 100000 == 2):
                 remaining = len(self.cur_list) - self._consumed if self.cur is not None else 0
-                return max(0, min(remaining, (1 << w) - 2))
+                # a body may hold several values per repetition (markers with operators between them)
+                per = sum(1 for b in body if (b // 1000 == 33 and self.qa) or (b % 1000 == 255 and b // 100000 == 2)) or 1
+                return max(0, min(remaining // per, (1 << w) - 2))
             return self.policy.count(self, w, eid)
         if eid == 31031 and self.bm_state in ('expect', 'collecting'):
             return self.policy.bitmap_bit(self)
